@@ -157,7 +157,7 @@ class C02(DiffProperty):
         t = case.split()
         hdr, rest = t[:5], t[5:]
         ar = {"send": 1, "part": 1, "fin": 0, "wire": 1, "recv": 0, "drain": 0, "peek": 1, "peekn": 1,
-              "gpush": 1, "gfin": 0, "gflush": 1, "gpoll": 1, "gdisp": 0, "gdrain": 0, "raw": 1}
+              "gpush": 1, "gfin": 0, "gflush": 1, "gpoll": 1, "gdisp": 0, "gdrain": 0, "raw": 1, "wopen": 1}
         ops = []
         i = 0
         while i < len(rest):
@@ -278,6 +278,34 @@ class C02(DiffProperty):
                         ops += [rng.choice(["peek", "peek", "peekn"]), str(rng.choice([0, 1, 4, 100]))]
             ops += ["drain"]
             cases.append(" ".join([str(v), str(wcap), str(woff), str(rcap), str(roff)] + ops))
+        # open block straddling the ring end (placed by a raw push, op wopen): the out-of-band branch of
+        # mpt_queue_push (copy of the open block into a temporary buffer, encode there, write back wrapped)
+        no = 900 if tier == "quick" else 30000
+        for i in range(no):
+            v = i % 4
+            wcap = rng.choice([8, 12, 16, 17, 32, 64, 300])
+            # the writer ring of this harness does not grow: the whole message has to fit (as in the family above)
+            budget = min(max(1, (wcap - 4) // (2 if v >= 2 else 1) - 2), 40)
+            k = rng.randrange(0, min(budget, 30) + 1)                            # data bytes of the open block
+            blk = [k + 1] + [rng.randrange(1, 256) for _ in range(k)]
+            # most offsets make the block straddle: it starts 1..k bytes before the ring end
+            woff = (wcap - rng.randrange(1, k + 1)) if (k and rng.random() < 0.8) else rng.randrange(0, wcap)
+            rcap = rng.choice([16, 64, 2 * wcap + 64]); roff = rng.randrange(0, rcap)
+            ops = []
+            if rng.random() < 0.3:
+                # an earlier message, completely taken by the transport: the ring is empty again, at another offset
+                ops += ["send", hx(self.gen_msg(rng, v, 3)), "wire", "100000"]
+            ops += ["wopen", hx(blk)]
+            left = budget - k
+            for _ in range(rng.choice([0, 1, 1, 2, 3])):
+                m = self.gen_msg(rng, v, rng.choice([1, 2, 5, max(1, left)]))[:left]
+                left -= len(m)
+                if m:
+                    ops += ["part", hx(m)]
+                if rng.random() < 0.3:
+                    ops += ["wire", str(rng.choice([1, 3, 100]))]
+            ops += ["fin"] + ["recv"] * rng.choice([0, 1]) + ["send", hx([0x77]), "drain"]
+            cases.append(" ".join([str(v), str(wcap), str(woff % wcap), str(rcap), str(roff)] + ops))
         # long messages: more than 256 bytes decoded when the ZPE decoder runs out of scratch space
         # (mpt_queue_recv then has to move the decoded bytes in several chunks), several maximal blocks
         nl = 600 if tier == "quick" else 20000
